@@ -4,7 +4,7 @@ from common import *
 
 ID = "C11"
 GEN = ["Units"]
-THEOREMS = ["C11_tables_wf", "C11_scale_to_shape", "C11_units_cover", "C11_groups", "C11_refuted_groups",
+THEOREMS = ["C11_tables_wf", "C11_scale_to_shape", "C11_units_cover", "C11_groups", "C11_lone_units_do_not_convert",
             "C11_ratios", "C11_unitless_plus", "C11_unitless_minus", "C11_same_unit_plus", "C11_plus_two_units",
             "C11_incompatible_kept", "C11_mul_div_exponents", "C11_div_same_unit"]
 COQ_HEADER = "From Coq Require Import String List ZArith.\nFrom RV Require Import Model.Numeric Run.C11.\nImport ListNotations.\nLocal Open Scope string_scope."
@@ -181,7 +181,7 @@ def coq_term(c, io):
             f"{cz(bits(c['b']))} {cstring(c['ub'])} {impl_term(io)} {i2})")
 
 
-KCLASS = {0: None, 1: "known_C11_K1_kept_binop", 2: "known_C11_K2_lone_convert", 3: "known_C11_K3_unitless_le_ge"}
+KCLASS = {0: None, 1: "known_C11_K1_kept_binop", 2: None, 3: "known_C11_K3_unitless_le_ge"}
 
 
 def judge(c, io, r):
@@ -203,11 +203,11 @@ def shrink(c):
             if (a, b) != (c["a"], c["b"]):
                 yield dict(c, a=a, b=b)
 
-LEVEL_TEXT = ("proof: finite sweeps over the unit table regenerated from unit.rs (groups = CSS groups outside class F15, "
+LEVEL_TEXT = ("proof: finite sweeps over the unit table regenerated from unit.rs (convertible iff same CSS group, "
               "every ratio within 1e-15 of the CSS ratio) lifted with forallb_forall, and all-magnitude theorems about "
               "the model of Operator::eval (unitless operand takes the other's unit; a number results only through a "
               "table ratio; exponents add/subtract/cancel); the model is tied to the code by translating the tables on "
               "every run and by bit-exact correspondence on every unit pair")
 LEVEL_NOTE = ("trusted: Coq kernel+vm_compute, Flocq binary64 (classical real axioms), gen/rs2v.py, the harness, "
-              "Spec/CssUnits.v; three clauses of the statement are false on the pinned tree and recorded as known findings F15/F16/F19")
+              "Spec/CssUnits.v; two clauses of the statement are false on the tree and recorded as known findings F16/F19 (F15 is fixed in /repo)")
 TECHNIQUE = "Coq proof (table sweep by vm_compute + forallb_forall; structural lemmas) + translator + differential correspondence"
